@@ -125,9 +125,12 @@ func runC19(r *core.Run) {
 		}
 		for _, fn := range fns {
 			for _, kind := range []string{"RGBA", "NRGBA", "Gray", "YCbCr"} {
-				for ci, content := range []string{"smooth", "noise", "const", "extreme", "ramp"} {
-					if n == 256 && r.Tier != "thorough" && ci%2 == 1 {
+				for ci, content := range []string{"smooth", "noise", "const", "extreme", "ramp", "holes"} {
+					if n == 256 && r.Tier != "thorough" && ci%2 == 1 && content != "holes" {
 						continue
+					}
+					if content == "holes" && kind != "RGBA" && kind != "NRGBA" {
+						continue // transparency exists for the alpha-carrying kinds only
 					}
 					pics = append(pics, pic{fn, kind, content, n, int64(100 + ci + int(r.Seed)*10)})
 				}
@@ -151,7 +154,10 @@ func runC19(r *core.Run) {
 	var orcs []orc
 	for _, n := range []int{64, 256} {
 		for _, kind := range []string{"RGBA", "NRGBA", "Gray"} {
-			for _, content := range []string{"smooth", "noise", "ramp", "extreme"} {
+			for _, content := range []string{"smooth", "noise", "ramp", "extreme", "holes"} {
+				if content == "holes" && kind == "Gray" {
+					continue
+				}
 				for k := 0; k < 3; k++ {
 					if n == 256 && (r.Tier != "thorough" && k > 0) {
 						continue
